@@ -147,6 +147,15 @@ def run(chk):
             lines.append(sep.join(toks))
             if rng.random() < 0.2:
                 lines.append("# a comment between rows")
+        if rng.random() < 0.35:
+            # option lines are honoured wherever they stand: move one behind the first data row / to the end of the file
+            opt = [i for i, l in enumerate(lines) if l.startswith("# ") and "=" in l and not l.startswith("# dim")]
+            first_row = min(i for i, l in enumerate(lines) if not l.startswith("#"))
+            if opt:
+                k = rng.choice(opt)
+                if k < first_row:
+                    l = lines.pop(k)
+                    lines.insert(rng.choice([len(lines), rng.randint(first_row, len(lines))]), l)
         d_ = os.path.join(base, "f%d" % fi)
         os.makedirs(d_)
         json.dump(wj, open(os.path.join(d_, "w.wb"), "w"))
@@ -160,6 +169,16 @@ def run(chk):
             bad_lines[k] = bad_lines[k] + sep + "1.0" if rng.random() < 0.5 else sep.join(bad_lines[k].replace(",", " ").split()[:-1])
             open(os.path.join(d_, "bad.dat"), "w").write("\n".join(bad_lines) + "\n")
             files[-1]["bad"] = True
+        # a malformed variant: one entry of a row is not a number (a prefix of it is)
+        if rng.random() < 0.4:
+            bad_lines = list(lines)
+            k = rng.choice([i for i, l in enumerate(bad_lines) if not l.startswith("#")])
+            ts = bad_lines[k].replace(",", " ").split()
+            j = rng.randrange(len(ts))
+            ts[j] = rng.choice([ts[j] + "km", "1.0d5", ts[j] + "x", "1e5e", "12abc", "0x", ts[j] + "_"])
+            bad_lines[k] = sep.join(ts)
+            open(os.path.join(d_, "bad2.dat"), "w").write("\n".join(bad_lines) + "\n")
+            files[-1]["bad2"] = ts[j]
     impl, _ = cs.run(model=False)
     # model: header and row layout for every file
     body = COLS
@@ -206,11 +225,9 @@ def run(chk):
             if len(hdr) != len(orow) or exp != orow:
                 if f["dim"] == 2 and (f["comps"] or f["gcs"]) and len(hdr) == len(orow):
                     # the known 2-D shift: compositions and grains read one slot too early
-                    shifted = list(exp)
-                    k0 = hdr.index("vz") + 1
-                    offs, _ = offsets(f["ps"])
-                    flat = [cxx_g(v) for v in ans]
-                    shifted[k0:-1] = flat[3:3 + len(hdr) - k0 - 1]
+                    # (every composition / grain slot is read from one slot earlier; the tag from its own slot)
+                    ans2 = list(ans[:4]) + list(ans[3:-2]) + [ans[-1]]
+                    shifted = [header_value(h, f["dim"], f["ps"], ans2, toks, f["ng"]) for h in hdr]
                     if shifted == orow:
                         known_b = True
                         continue
@@ -238,6 +255,14 @@ def run(chk):
             chk.count("malformed rows")
             if rc == 0 or "entries" not in (out + err):
                 viol.append(("a row with a wrong number of entries is not reported (rc=%d)" % rc, rep))
+        if f.get("bad2"):
+            rc, out, err = common.sh([exe, "w.wb", "bad2.dat"], cwd=f["dir"], timeout=300)
+            chk.evaluations += 1
+            chk.count("malformed numbers")
+            if rc == 0:
+                rep2 = dict(rep)
+                rep2["malformed_entry"] = f["bad2"]
+                viol.append(("a row with an entry that is not a number ('%s') is silently misread (rc=0)" % f["bad2"], rep2))
         if fi < 2:
             chk.sample({"dat": f["lines"][:8], "output_head": olines[:2]})
     real = [(w, d) for w, d in viol if w != "__corr__"]
